@@ -44,6 +44,16 @@ tokens of two different top-level forms occupy disjoint, consecutive segments of
 theorem token_cursors_consecutive (cs : List Char) : LexLoc.TokCursors cs (1, 1) (Lex.all cs).1 :=
   (ProgLoc.all_cursors cs).1
 
+/-- `()`: the tokens are located at 1:2 and 1:3, the cursors after `(` and after `()` -/
+example : Lex.all ['(', ')'] = ([⟨.lparen, some (1, 2)⟩, ⟨.rparen, some (1, 3)⟩], none) ∧
+    Text.advs ['('] (1, 1) = (1, 2) ∧ Text.advs ['(', ')'] (1, 1) = (1, 3) := by
+  refine ⟨?_, by decide, by decide⟩
+  simp [Lex.all, Lex.allAux, Lex.next, Lex.skipAtmosphere, Lex.token, Lex.adv, Lex.isWs]
+
+/-- a lexical error: `#` at the end of the text is reported at the cursor after it -/
+example : Lex.all ['#'] = ([], some (1, 2)) := by
+  simp [Lex.all, Lex.allAux, Lex.next, Lex.skipAtmosphere, Lex.token, Lex.adv, Lex.isWs]
+
 /-- the cursors along `a\nbc`: after `a` 1:2, after the line break 2:1, after `bc` 2:3 -/
 example : Text.advs "a".toList (1, 1) = (1, 2) ∧ Text.advs "a\n".toList (1, 1) = (2, 1) ∧
     Text.advs "a\nbc".toList (1, 1) = (2, 3) := by decide
@@ -88,6 +98,11 @@ example : ∃ d s', Read.nextDatum { toks := [⟨.lparen, some (1, 2)⟩, ⟨.id
   simp [Read.nextDatum, Read.advance, Read.currentDatum, Read.listOrPair, Read.listLoop,
     Read.advanceUnwrap, Read.fuelFor, Read.snoc, Datum.withLoc, bind, Except.bind, pure, Except.pure]
   exact ⟨_, _, ⟨rfl, rfl⟩, rfl, rfl⟩
+
+/-- an unexpected `)` is reported at that token -/
+example : Read.nextDatum { toks := [⟨.rparen, some (1, 2)⟩], lexErr := none } =
+    .error (.syntax, some (1, 2)) := by
+  simp [Read.nextDatum, Read.advance, Read.currentDatum, Read.fuelFor, bind, Except.bind]
 
 /-! ## 3. macro expansion: every position of an expansion is a position of the macro use -/
 
@@ -216,6 +231,11 @@ theorem nonproc_at_the_operator {n : Nat} {σ σ₁ σ₂ : Store} {ρ : Nat} {f
     evalExpr (n + 1) σ ρ (.call f args loc) = (.error (.nonProcedure, f.loc), σ₂) := by
   simp [evalExpr, hf, ha, hv]
 
+/-- `(set! x 1)` with `x` unbound, the assignment located at `x` (1:7) -/
+example : (evalExpr 2 {} 0 (.assign "x" (.prim (.int 1) (some (1, 9))) (some (1, 7)))).1 =
+    .error (.unbound, some (1, 7)) := by
+  simp [evalExpr, evalPrim, Store.set, Store.resolve, Store.resolveAux]
+
 /-- Values created while evaluating `e` carry only code positions (with their roles) from `e` or
 from the closures that were already in the store. -/
 theorem store_locs_grow {n : Nat} {σ σ' : Store} {ρ : Nat} {e : Expr} {r : Except SErr Value}
@@ -274,6 +294,15 @@ example : ∃ s env', Xform.toStatement 100
     s = .expr (.cond (.sym "a" (some (3, 8))) (.sym "b" (some (3, 10))) none (some (3, 1))) :=
   ⟨_, _, rfl, rfl⟩
 
+/-- `(set! x 1)` at 1:1 is located at `x`, 1:7 -/
+example : ∃ s env', Xform.toStatement 9 (.pair (.sym "set!" (some (1, 2))) (.pair (.sym "x" (some (1, 7)))
+      (.pair (.prim (.int 1) (some (1, 9))) (.nil none) none) none) (some (1, 1))) [[]] = (.ok s, env') ∧
+    s.loc = some (1, 7) := ⟨_, _, rfl, rfl⟩
+
+/-- `(define 5)`: the syntax error is located at the `5` -/
+example : ∃ env', Xform.toStatement 9 (.pair (.sym "define" (some (1, 2))) (.pair (.prim (.int 5) (some (1, 9)))
+      (.nil none) none) (some (1, 1))) [[]] = (.error (.syntax, some (1, 9)), env') := ⟨_, rfl⟩
+
 /-! ## 6. library sources carry no positions -/
 
 /-- The code of a library read from a source text (`grammar.sld`-expanded `base.sld`, or a user's
@@ -309,6 +338,10 @@ example : ∃ n decls l env', Xform.toStatement 100
           (some (1, 29))) (.nil none) none) (some (1, 22))) (.nil none) none) none) (some (1, 2)))) [[]] =
       (.ok (.libraryDef n decls l), env') ∧ locs decls = [] :=
   ⟨_, _, _, _, rfl, rfl⟩
+
+/-- instantiating the empty library -/
+example : (evalLibraryDef 2 {} []).1 = .ok [] := by
+  simp [evalLibraryDef, evalLibDecls, Store.newFrame]; rfl
 
 /-! ## 7–8. `eval_ast`: the position reported for a failing top-level form -/
 
@@ -454,6 +487,25 @@ theorem stdlib_program_error_loc {fuel f : Nat} {withHost : Bool} {st' : State} 
     rw [this] at h; cases h
   · exact h
 
+/-- the same program `⏎x` in `Interpreter::default()` (`withStdlib 0` = nothing imported yet) -/
+example : (evalText 9 (withStdlib 0 false) ['\n', 'x']).1 = .error (.unbound, some (2, 2)) := by
+  have lex_x : Lex.all ['\n', 'x'] = ([⟨.ident "x", some (2, 2)⟩], none) := by
+    simp [Lex.all, Lex.allAux, Lex.next, Lex.skipAtmosphere, Lex.token, Lex.adv, Lex.isWs,
+      Lex.normalIdentifier, Lex.takeRun, Lex.isDigit, Except.map]
+  have hw : withStdlib 0 false = default_ false := by simp [withStdlib, evalImport]
+  have hd : (default_ false).importEnd = false ∧ (default_ false).env = 0 ∧
+      (default_ false).store.frames = #[{ parent := none, defs := [] }] := by
+    unfold default_
+    generalize Gen.baseLibText = b
+    generalize Gen.writeLibText = w
+    exact ⟨rfl, rfl, rfl⟩
+  obtain ⟨h1, h2, h3⟩ := hd
+  rw [hw]
+  simp [evalText, evalText.go, Read.ofText, lex_x, Read.nextDatum, Read.advance, Read.currentDatum,
+    Read.fuelFor, Xform.toStatement, Xform.xformFuel, evalAst, evalExprOrDef, Eval.evalExpr, Store.lookup,
+    Store.lookupAux, bind, Except.bind, pure, Statement.loc, Expr.loc, Datum.loc, h1, h2, h3]
+
+
 theorem default_state_unlocated (withHost : Bool) (f : Nat) :
     locs (default_ withHost) = [] ∧ locs (withStdlib f withHost) = [] := by
   constructor
@@ -497,6 +549,15 @@ theorem runtime_error_is_located {s s' : Read.PState} {d : Datum} {fuel₀ fuel 
   cases loc with
   | none => exact absurd rfl hl
   | some l => exact ⟨l, rfl⟩
+
+/-- one round on the token `x` located at 2:2 -/
+example : ∃ d stmt env',
+    (Read.nextDatum { toks := [⟨.ident "x", some (2, 2)⟩], lexErr := none }).toOption.map (·.1) = some (some d) ∧
+    Xform.toStatement 9 d [[]] = (.ok stmt, env') ∧
+    (evalAst 9 {} stmt).1 = .error (.unbound, some (2, 2)) := by
+  refine ⟨.sym "x" (some (2, 2)), _, _, ?_, rfl, ?_⟩
+  · simp [Read.nextDatum, Read.advance, Read.currentDatum, Read.fuelFor, bind, Except.bind, Except.toOption]
+  · simp [evalAst, evalExprOrDef, Eval.evalExpr, Store.lookup, Store.lookupAux, Datum.loc]
 
 /-- For a whole program: if `Interpreter::eval` reports an error WITHOUT a position, the error was
 raised by the reader or by the transformer (a syntax error; or the model ran out of fuel) — never by
